@@ -194,6 +194,19 @@ def run_suite_on_host(modname, tier, host):
     return json.loads(line[len("@@RESULT "):])
 
 
+def replay_on_host(modname, rp, host):
+    exe = {"3.11": "python3-vt", "3.12": os.path.join(VERIF, ".venv312", "bin", "python")}[host]
+    env = dict(os.environ)
+    env["PYTHONPATH"] = VERIF
+    env["PYTHONDONTWRITEBYTECODE"] = "1"
+    p = subprocess.run([exe, "-m", "olvc.oblig", "--replay-one", modname, json.dumps(rp, default=str)], cwd=VERIF, env=env,
+                       capture_output=True, text=True)
+    lines = [l for l in p.stdout.splitlines() if l.startswith("@@REPLAY ")]
+    if not lines:
+        return dict(reproduced=False, error=(p.stderr or p.stdout)[-1500:])
+    return json.loads(lines[-1][len("@@REPLAY "):])
+
+
 # ----------------------------------------------------------------------------------------
 # the check driver
 
@@ -247,7 +260,10 @@ def main_check(prop, tier):
         rep = None
         if rp.get("kind") and hasattr(mod, "REPLAY"):
             try:
-                rep = mod.REPLAY[rp["kind"]](rp)
+                if i["host"] != host_tag():
+                    rep = replay_on_host(modname, rp, i["host"])
+                else:
+                    rep = mod.REPLAY[rp["kind"]](rp)
             except BaseException as e:  # noqa: BLE001
                 rep = dict(reproduced=False, error="".join(traceback.format_exception_only(type(e), e)))
         hid = hashlib.sha1(i["name_h"].encode()).hexdigest()[:10]
@@ -327,12 +343,21 @@ def main_replay(path):
     if not rp.get("kind"):
         print(f"no replayable input stored for {d['obligation']}; verifier output:\n{d['verifier_output']}")
         return 0
-    rep = mod.REPLAY[rp["kind"]](rp)
+    if d.get("host") and d["host"] != host_tag():
+        rep = replay_on_host(f"suites.{prop.lower()}", rp, d["host"])
+    else:
+        rep = mod.REPLAY[rp["kind"]](rp)
     print(json.dumps(rep, indent=1, default=str))
     return 1 if rep.get("reproduced") else 0
 
 
 if __name__ == "__main__":
+    if len(sys.argv) >= 4 and sys.argv[1] == "--replay-one":
+        sys.path.insert(0, VERIF) if VERIF not in sys.path else None
+        mod = importlib.import_module(sys.argv[2])
+        rp = json.loads(sys.argv[3])
+        print("@@REPLAY " + json.dumps(mod.REPLAY[rp["kind"]](rp), default=str))
+        sys.exit(0)
     if len(sys.argv) >= 4 and sys.argv[1] == "--worker":
         res = run_suite_local(sys.argv[2], sys.argv[3])
         print("@@RESULT " + json.dumps(res, default=str))
